@@ -16,6 +16,7 @@
    iterates Go maps (random order); everything observable that the model defines is
    independent of that order (sets, multisets, sorted lines, error/no error). *)
 From Grog Require Export Str Label Graph.
+From Grog Require Path.   (* qualified: Path.resolve is not the [resolve] of this file *)
 
 (* ------------------------------------------------------------------ nodes and configuration *)
 
@@ -27,7 +28,7 @@ Record node := mkNode {
   ntags   : list str;      (* Target.Tags *)
   nplats  : list str;      (* Target.Platforms (already defaulted from the package) *)
   nbin    : bool;          (* Target.HasBinOutput() *)
-  ninputs : list str       (* Target.Inputs: resolved, relative to the package directory *)
+  ninputs : list str       (* Target.Inputs: relative to the package directory, literal inputs AS SPELLED in the BUILD file *)
 }.
 
 Definition default_node : node := mkNode KTarget (mkLabel [] []) [] [] false [].
@@ -407,18 +408,63 @@ Definition deps_query_dedup (cfg : config) (ns : list node) (g : graph) (n : nat
 Definition rdeps_query_dedup (cfg : config) (ns : list node) (g : graph) (n : nat) (transitive : bool) : list str :=
   print_sorted ns (filter_nodes (query_cfg cfg) ns g (dedup_nat (if transitive then rdeps_t g n else dependants g n))).
 
-(* filepath.Join(package, input) for clean relative paths (no ".", "..", "//"); the
-   workspace root prefix is the same on both sides of the comparison and is dropped *)
+(* ---- owners.  A node's inputs are the literal inputs AS SPELLED in the BUILD file ("./f", "zz/../f", "d//f", "d/./f":
+   loading.resolveInputs passes an input without glob characters through unchanged); the files are the arguments as
+   typed, relative to the workspace root (an argument typed inside a package directory is handed over with that
+   package in front, uncleaned).  owners.go compares
+     config.GetPathAbsoluteToWorkspaceRoot(filepath.Join(package, input)) = filepath.Join(root, filepath.Join(package, input))
+   with filepath.Abs(argument) = filepath.Join(cwd, argument); Join cleans.  [owners_abs] below is that comparison with
+   the root in front; [owners] drops the root, which is the same on both sides: for inputs and arguments that do not
+   climb above the workspace root the two agree (Owners_proofs.owners_abs_is_owners; an input may not even leave its
+   package: analysis.checkInputPathsRelative). *)
+
+(* package/input exactly as spelled, not cleaned (what the comparison was made with in the seeded changes C20c/d/f) *)
 Definition input_path (a : node) (inp : str) : str :=
   if null (lpkg (nlabel a)) then inp else lpkg (nlabel a) ++ ch_slash :: inp.
 
+(* filepath.Join(root, filepath.Join(package, input)), the root dropped: "." stands for the root itself *)
+Definition canon_input (pkg inp : str) : str := Path.clean (Path.join_path [pkg; inp]).
+(* filepath.Abs(argument), the root dropped *)
+Definition canon_arg (f : str) : str := Path.clean f.
+
 Definition owns (a : node) (f : str) : bool :=
-  is_target a && existsb (fun inp => str_eqb (input_path a inp) f) (ninputs a).
+  is_target a && existsb (fun inp => str_eqb (canon_input (lpkg (nlabel a)) inp) (canon_arg f)) (ninputs a).
 
 (* grog owners f1 f2 ...: targets having one of the files among their resolved inputs *)
 Definition owners_idx (ns : list node) (files : list str) : list nat :=
   filter (fun i => existsb (owns (attr ns i)) files) (seq 0 (length ns)).
 Definition owners (ns : list node) (files : list str) : list str := print_sorted ns (owners_idx ns files).
+
+(* the comparison made with the SPELLING of the input (argument cleaned, input not): not the code; the behaviour of
+   the seeded changes, kept as the reference C20_owners_verbatim_refuted speaks about *)
+Definition owns_verbatim (a : node) (f : str) : bool :=
+  is_target a && existsb (fun inp => str_eqb (input_path a inp) (canon_arg f)) (ninputs a).
+Definition owners_verbatim (ns : list node) (files : list str) : list str :=
+  print_sorted ns (filter (fun i => existsb (owns_verbatim (attr ns i)) files) (seq 0 (length ns))).
+
+(* the comparison as owners.go makes it, with absolute paths: the workspace root is "/" ++ its elements joined by "/"
+   (e.g. ["w"; "ws"] for /w/ws), the command runs in the root *)
+Definition abs_root (rootc : list str) : str := ch_slash :: join Path.slash rootc.
+Definition abs_input (rootc : list str) (pkg inp : str) : str :=
+  Path.join_path [abs_root rootc; Path.join_path [pkg; inp]].
+(* filepath.Abs: Clean of an absolute argument, Join(cwd, .) of a relative one *)
+Definition abs_arg (rootc : list str) (f : str) : str :=
+  if Path.is_abs f then Path.clean f else Path.join_path [abs_root rootc; f].
+Definition owns_abs (rootc : list str) (a : node) (f : str) : bool :=
+  is_target a && existsb (fun inp => str_eqb (abs_input rootc (lpkg (nlabel a)) inp) (abs_arg rootc f)) (ninputs a).
+Definition owners_abs (rootc : list str) (ns : list node) (files : list str) : list str :=
+  print_sorted ns (filter (fun i => existsb (owns_abs rootc (attr ns i)) files) (seq 0 (length ns))).
+
+(* does not climb above the directory it is read from: relative and Clean leaves no leading ".." *)
+Definition stays_inside (p : str) : bool := negb (Path.is_abs p) && negb (Path.tries_to_escape p).
+
+(* the same node with its inputs spelled differently: same kind and label, the inputs pairwise the same file after
+   Join/Clean (tags, platforms, bin output are not looked at by `owners`); the same arguments spelled differently *)
+Definition respelled (a b : node) : Prop :=
+  nkind a = nkind b /\ nlabel a = nlabel b /\
+  Forall2 (fun i j => canon_input (lpkg (nlabel a)) i = canon_input (lpkg (nlabel a)) j) (ninputs a) (ninputs b).
+Definition args_respelled (files files' : list str) : Prop :=
+  Forall2 (fun f f' => canon_arg f = canon_arg f') files files'.
 
 (* grog list [--target-type=..] <patterns>: SelectTargets then LogSelectedNodes (sorted; one line per selected node) *)
 Definition list_query (cfg : config) (ns : list node) (g : graph) : list str :=
